@@ -418,6 +418,10 @@ impl Pager {
             let evicted_id = evicted.page_number();
 
             if evicted.is_dirty() {
+                // Write-ahead rule: the log records that describe the changes on this page must be
+                // on disk before the page is. Otherwise a crash leaves the changes of a transaction
+                // that never committed in the data file with nothing in the log to undo them.
+                self.wal.flush()?;
                 let page_size = self.page_size();
                 evicted.with_bytes_mut(|bytes| self.write_block(evicted_id, &bytes, page_size))?;
             };
